@@ -1,6 +1,7 @@
 package main
 
 import (
+	"fmt"
 	"math"
 
 	"github.com/paulmach/orb"
@@ -30,6 +31,8 @@ type clipRingEv struct {
 }
 
 var c08Prev prevTracker
+var c08PrevIn orb.MultiPolygon
+var c08PrevInSnap string
 
 func closedRing(v [][2]int) [][2]int {
 	return append(append([][2]int{}, v...), v[0])
@@ -110,6 +113,12 @@ func c08Ring(c *ctx, fn string, box [4]int, in [][][][2]int, st int) [][][][2]in
 	}
 	e.Out, e.Shape = q, shape
 	e.PSt = c08Prev.check(out)
+	// the rings handed to the PREVIOUS call (scratch space during that call, the caller's again afterwards) still hold
+	// what that call left in them: a later call does not write to memory it was lent earlier
+	if c08PrevIn != nil && fmt.Sprint(c08PrevIn) != c08PrevInSnap {
+		e.PSt = 0
+	}
+	c08PrevIn, c08PrevInSnap = g, fmt.Sprint(g)
 	if len(q) > 0 && !eqMP(q, in) {
 		e.NT = 1
 	}
@@ -446,7 +455,7 @@ func init() {
 					case "GeometryCollection":
 						out = clip.Geometry(b, members.Clone())
 					default:
-						layer := &mvt.Layer{Name: "l", Version: 2, Extent: 4096}
+						layer := &mvt.Layer{Name: "l", Version: 2, Extent: []uint32{4096, 512, 8192, 2048}[c.rng.Intn(4)]} // (the box is in the layer's own units whatever the extent)
 						for _, m := range members {
 							layer.Features = append(layer.Features, geojson.NewFeature(orb.Clone(m)))
 						}
